@@ -303,7 +303,7 @@ func c13QueriesPure(c *Ctx) {
 }
 
 // c13PayloadLookup specialises GetMaxPayloadSizeForDataRateIndex at every (version, revision, DR) point — the six
-// declared versions plus an unknown one, the seven declared revisions plus an unknown one, every defined DR plus
+// declared versions plus six unknown ones, the seven declared revisions plus four unknown ones, every defined DR plus
 // one undefined — and compares with the two-level `latest` fallback applied to the evaluated table.
 func c13PayloadLookup(c *Ctx, bands *tables.Bands, cfg *tables.BandConfig, drs []tables.DataRate, versions, revisions map[string]bool, tab map[string]map[string]map[int]tables.PayloadCell) {
 	r := c.Run
@@ -317,8 +317,10 @@ func c13PayloadLookup(c *Ctx, bands *tables.Bands, cfg *tables.BandConfig, drs [
 		r.Unknown("R7.payload-lookup", cfg.Short(), c.Prog.Rel(fd.Pos()), "three parameters", fmt.Sprint(pn))
 		return
 	}
-	vs := append(keysOfBool(versions), "9.9.9-unknown")
-	rs := append(keysOfBool(revisions), "RP-unknown")
+	// unknown strings: one that resembles nothing, and the near misses a lenient comparison would take for a known one
+	// (empty, an abbreviated version, surrounding white space, a "v" prefix, another letter case)
+	vs := append(keysOfBool(versions), "9.9.9-unknown", "", "1", "1.0", " 1.0.2", "v1.0.3")
+	rs := append(keysOfBool(revisions), "RP-unknown", "", "b", " A")
 	var drl []int
 	for _, d := range drs {
 		drl = append(drl, d.Index)
